@@ -152,18 +152,19 @@ PROPS["C20"] = dict(
 
 PROPS["C11"] = dict(
     pkg="props/c11", level="fault_enumeration", engine="E-pos", design_ref="§4 C11", aux_builds=RUNNER_AUX,
-    technique="PBT-generated merge inputs (rapid) x exhaustive single-fault injection at every iterator and writer position (+ sampled double faults); system leg: failing table writers and failing write(2) system calls (strace fault injection) inside flush/compaction of a child process",
+    technique="PBT-generated merge inputs (rapid) x exhaustive single-fault injection at every iterator and writer position (+ sampled double faults); system leg: failing table writers and failing write/read/fsync system calls (strace fault injection) inside flush/compaction of a child process",
     rule=("interface leg (5 of 6 cases): one run of Merge / MergeCompact(latest-wins) / MergeCompact(skip-tombstones) over 1..5 generated overlapping inputs per injected fault: input i fails at its j-th Next (every i, every j incl. the "
           "call that would return Done; one-shot and sticky) or the writer fails at its p-th WriteNext (every p; one-shot and sticky), plus up to 6 generated double faults; oracle: fault fired => a non-nil error (or a panic), no fault "
           "fired => nil. System leg (1 of 6): a generated simpledb program runs in a child process in which EITHER the data or index writer of the f-th flush / c-th compaction fails at record position p or at its Close, i.e. the final flush (verif-tag writer-open hook, failure "
-          "model of the repository's failingRecordIoWriter) OR a write(2) system call fails with EIO/ENOSPC (strace -e inject): the k-th write (k in 1..6) to data.rio / index.rio / bloom.bf.gz / meta.pb.bin of the n-th flushed table or to the n-th log file, or the k-th write (4..120) of whichever thread reaches it; "
+          "model of the repository's failingRecordIoWriter) OR a system call fails with EIO/ENOSPC (strace -e inject): the k-th write (k in 1..6) to data.rio / index.rio / bloom.bf.gz / meta.pb.bin of the n-th flushed table or to the n-th log file, or the k-th write (4..120) of whichever thread reaches it; "
+          "likewise the k-th read/pread64 of one of those files (compaction inputs, recovery, scans) and the k-th fsync (of a log file, or of any thread); "
           "the child may stop or continue; if a writer fault fired, an operation must have returned an error or the child must have stopped; afterwards the parent opens the directory without faults and its content must equal the map of the acknowledged operations "
           "(operations in flight or answered with an error may or may not have taken effect). non-trivial = the fault fired before the last output record was written (interface) / the fault fired, or with a syscall fault the child stopped or an operation returned an error (system); distinct = (case hash, fault position)"),
     level_text="Every single fault position of every generated merge is enumerated with an exact oracle; the system leg samples fault positions inside real flushes and compactions.",
     level_note="system-leg positions are sampled, not enumerated; compaction output directories have random names (os.MkdirTemp), so the path-targeted system-call faults reach flushed tables and log files, compaction outputs are reached by the writer hook and by the untargeted k-th-write variant (k counts per thread, so which write fails depends on the schedule - the oracle holds for any of them)",
     assumptions=COMMON_ASSUME + ["hooks: sstables.VerifSetWriterOpenHook / VerifWrapWriters (tag verif)"],
     require_labels=["kind=merge", "kind=compact-latest", "kind=compact-skip", "leg=system", "fault-fired", "fault-fired-at-close", "child-stopped", "leg=system-syscall-fault", "operation-returned-error"],
-    quick=dict(shards=16, checks=60, shrink_s=5),
+    quick=dict(shards=16, checks=150, shrink_s=5),
     thorough=dict(shards=16, checks=1500, timeout_s=3600),
 )
 
